@@ -45,6 +45,18 @@ CLAIMS = {
    tech="Spec-driven typestate (known-bit): guard dominance over go/cfg in Type callbacks (unknown by contract), AllowUnknown parameters and elements of arguments",
    text="Decides a necessary condition of 'replacing arguments or nested parts by unknowns cannot turn success into failure': every known-only accessor in a Type callback, on an AllowUnknown parameter in an Impl callback, or on an element of any argument is dominated by IsKnown/IsWhollyKnown on the subject or its container (including the 'exit unless wholly known for every argument' loop idiom).",
    note="Not decided: that refined results admit the concrete results (length bounds, prefixes) and that known parts agree — value-level. "),
+ "C15": dict(rules=["C15.kind-total","C15.dynamic-first","C16.reject-first","C17.partial-constructors","C17.object-completion"],
+   tech="kind-dispatch coverage of encoder and decoder + statement-order (dominance) rule for the dynamic-constraint branch + guard dominance for panicking constructors in the decoder",
+   text="Decides: the JSON encoder and decoder each have a branch for every capsule-free kind with an error/panic residual; the encoder rejects marked values first and routes a dynamic constraint to the type-tagging wrapper before the null shortcut (typed nulls keep their type); the decoder completes objects from the requested type and guards ListVal/SetVal/MapVal with the Can*Val test.",
+   note="Not decided: round-trip equality (number text, normalisation), agreement with encoding/json on the produced bytes, the structural-type claim of ImpliedType — value-level. "),
+ "C16": dict(rules=["C16.kind-total","C16.dynamic-first","C16.reject-first","C16.narrowing-exact","C16.refinement-keys","C17.partial-constructors","C17.object-completion"],
+   tech="kind-dispatch coverage + statement-order rule (dynamic before null and unknown) + must-facts dominance of big.Exact tests over every use of a narrowed number + writer/reader table agreement for the refinement keys and the dynamic wrapper",
+   text="Decides: encoder and decoder cover every capsule-free kind; marked values are rejected first; a dynamic constraint is handled before the null shortcut and before the unknown-value branch (typed unknowns keep their type and refinements); a number is written as int or float64 only where the accuracy of that very narrowing was compared with big.Exact; every refinement key the encoder can write has a decoder case and vice versa, and the dynamic wrapper has the length the decoder requires.",
+   note="Not decided: value equality after the round trip, that decoded ranges are never narrower than the originals (rounding direction of bounds) — value-level. "),
+ "C18": dict(rules=["C18.width-table","C18.range-test-before-set","C18.unknown-null-first","C16.narrowing-exact"],
+   tech="constant-table check of per-width integer bounds through go/types constants + must-facts dominance of exactness and range tests over reflect setters",
+   text="Decides: the bounds for 8/16/32/64-bit signed and unsigned targets are exactly the type's range with a panicking residual; SetInt/SetUint are dominated by big.Exact and by the comparisons with both bounds; SetFloat is protected by an infinity test conditioned on nothing but inexactness and by a float32 range test; unknown values are rejected before the kind dispatch.",
+   note="Not decided: exact round trip for all Go values; freedom from reflect panics (no model of reflect); math/big's own Uint64 accuracy report for fractions (trusted as documented). "),
  "C17": dict(rules=["C17.error-checked","C17.result-depends-on-type","C17.length-taint","C17.partial-constructors","C17.object-completion"],
    tech="taint tracking of input-supplied lengths to allocation sizes over go/ssa (dominating bound checks as sanitisers) + forward may-analysis of unread errors over go/cfg + data/control dependence of successful returns on the requested type + guard dominance for panicking constructors",
    text="Decides, for every function reachable from the five decoder entry points: no length read from the input sizes an allocation without a dominating bound; no error variable is overwritten or dropped unread; every successful return of a type-directed decoder depends on the requested type; ListVal/SetVal/MapVal are dominated by the Can*Val test, ObjectWithOptionalAttrs by a validation of the optional names, refinement-builder replays by a recovering defer; structural values are returned only after the member count was compared with the type (distinct members for by-name decoding) or completed from it.",
